@@ -207,3 +207,53 @@ def expectation(h):
         fx = [h.call(f, h.ev('x[%d]' % i, x=x)) for i in range(n)]
         env = {'f%d' % i: v for i, v in enumerate(fx)}
         h.check('textbook-expectation', 'r * %d == %s' % (n, ' + '.join('f%d' % i for i in range(n))), r=r, **env)
+
+
+PAIR_SETS = [((0, 1),), ((0, 1), (0, 2)), ((0, 1), (2, 3)), ((0, 1), (1, 2)), ((0, 2), (1, 2)), ((0, 1), (0, 2), (1, 2)),
+             ((1, 3), (2, 3), (0, 3)), ((0, 1), (2, 3), (1, 2))]
+
+
+def _groups(n, pairs):
+    parent = list(range(n))
+
+    def find(a):
+        while parent[a] != a:
+            a = parent[a]
+        return a
+    for a, b in pairs:
+        ra, rb = find(a), find(b)
+        if ra != rb:
+            parent[rb] = ra
+    out = {}
+    for i in range(n):
+        out.setdefault(find(i), []).append(i)
+    return [g for g in out.values() if len(g) > 1]
+
+
+@contract('C18/impose_collapse', ['C18', 'C11'], F + '::impose_collapse', samples=200)
+def impose_collapse(h):
+    """per pair structure (single pair, star, chain, two groups, shared second member, clique, late join of two groups)
+    and for ALL positions and positive weights of 4 points: every connected group of the pairs ends with one carrier of
+    the group's whole weight and zero weight elsewhere, all its positions coincide, points in no pair keep their weight,
+    total weight and weighted mean are preserved"""
+    pairs = h.choice('pairs', PAIR_SETS)
+    as_list = h.choice('pairs_given_as', ['list', 'reversed-list'])
+    n = 4
+    x, w = h.vec('x', n), h.vec('w', n)
+    h.assume(' and '.join('w[%d] > 0' % i for i in range(n)), w=w)
+    ps = list(pairs) if as_list == 'list' else list(reversed(pairs))
+    arg = h.clist([h.tup(a, b) for a, b in ps]) if h.is_sym() else list(ps)
+    y, w2 = h.call(h.get(F + '::impose_collapse'), arg, x, w)
+    groups = _groups(n, pairs)
+    free = [i for i in range(n) if not any(i in g for g in groups)]
+    e = dict(y=y, w2=w2, x=x, w=w)
+    conj = []
+    for g in groups:
+        tot = ' + '.join('w[%d]' % i for i in g)
+        conj.append('(%s)' % ' or '.join('(w2[%d] == %s and %s)' % (c, tot, ' and '.join('w2[%d] == 0' % o for o in g if o != c)) for c in g))
+    h.check('each-group-has-one-carrier-of-its-whole-weight', ' and '.join(conj), **e)
+    h.check('positions-of-a-group-coincide', ' and '.join('y[%d] == y[%d]' % (g[0], o) for g in groups for o in g[1:]), **e)
+    if free:
+        h.check('points-in-no-pair-keep-their-weight', ' and '.join('w2[%d] == w[%d]' % (i, i) for i in free), **e)
+    h.check('total-weight-kept', '%s == %s' % (_sum('w2', n), _sum('w', n)), **e)
+    h.check('weighted-mean-kept', '%s == %s' % (_mean('y', n, 'w2'), _mean('x', n, 'w')), **e)
